@@ -722,6 +722,14 @@ func (ds *AnySource) writeControlStart(config *WriteControlConfig) error {
 			return mapError{msg: fmt.Sprintf("map error: have length %v, want %v, want value calculated as (nchan %v / channelsPerPixel %v)",
 				len(config.MapInternalOnly.Pixels), ds.nchan/ds.channelsPerPixel, ds.nchan, ds.channelsPerPixel)}
 		}
+		// Pixels are looked up by channel number, which need not run 1..nchan/channelsPerPixel
+		// (e.g. when channel numbers are separated by column, card, or channel group).
+		for _, channelNumber := range ds.chanNumbers {
+			if channelNumber < 1 || channelNumber > len(config.MapInternalOnly.Pixels) {
+				return mapError{msg: fmt.Sprintf("map error: channel number %v has no entry in a map of length %v",
+					channelNumber, len(config.MapInternalOnly.Pixels))}
+			}
+		}
 	}
 	path := ds.writingState.BasePath
 	if len(config.Path) > 0 {
